@@ -1,4 +1,5 @@
 import SpecVerif.Proofs.Lemmas.LeastSquares
+import SpecVerif.Proofs.Lemmas.Marple
 import SpecVerif.Proofs.C09
 import Mathlib.Tactic.IntervalCases
 import Mathlib.Tactic.FinCases
@@ -766,5 +767,183 @@ example : IsExpSum ([2, 0, 2, 0, 2] : List ℝ) 2 ![1, -1] ![1, 1] ∧
     fin_cases m <;> simp
 
 end Examples
+
+/-! ### The transliterated Marple recursions (`Model/Marple.lean`)
+
+`arcovarMarpleRec` / `modcovarMarpleRec` are statement-by-statement transliterations of
+`arcovar_marple` / `modcovar_marple`.
+
+  ┌───────────────────────────────────────────────────────────────────────────────────────────────┐
+  │ NOT PROVED: the general equality                                                              │
+  │     `arcovarMarpleRec x p = arcovarMarple x p`,  `modcovarMarpleRec x p = modcovarMarple x p` │
+  │ ("for every record with a non-singular least-squares problem Marple's fast recursion returns  │
+  │ the least-squares coefficients and the minimum per sample").  That statement is Marple's      │
+  │ derivation (Digital Spectral Analysis, app. 8.C / 8.D); it is not formalised here.  It is     │
+  │ TESTED in exact rational arithmetic by `_py/marple_diff.py` (b): rational equality of the two │
+  │ driver commands on ≥ 400 random dyadic records per estimator and exhaustively on every record │
+  │ over a small alphabet (N ≤ 6), and kernel-checked below on four concrete inputs.              │
+  └───────────────────────────────────────────────────────────────────────────────────────────────┘
+
+What IS proved below holds for every scalar type carrying the operation classes of the model (no
+algebraic law is used; in particular for `CRat` and for `CFloat`): shape of the result, the entry
+guards, and the order-0 value. -/
+
+section MarpleRec
+variable {S : Type} [Add S] [Sub S] [Mul S] [Div S] [Neg S] [OfNat S 0] [OfNat S 1] [NatCast S]
+  [Conj S] [IsZero S]
+
+/-- whenever the transliterated `arcovar_marple` returns, it returns exactly `p` coefficients
+(`AF[:order]`; the work array keeps its length `N ≥ p` through both halves of every iteration) -/
+theorem arcovarMarpleRec_length (x : List S) (p : ℕ) (a : List S) (e : S)
+    (h : arcovarMarpleRec x p = some (a, e)) : a.length = p := by
+  unfold arcovarMarpleRec at h
+  split at h
+  · rename_i r hr
+    simp only [Option.some.injEq] at h
+    subst h
+    exact MarpleL.arcovarMarpleCore_length hr
+  · exact absurd h (by simp)
+
+/-- entry guards: the transliterated `arcovar_marple` returns only for a non-empty record with
+`p ≤ N` (`assert len(x) >= order`; `x[0]` of an empty record is an `IndexError`) -/
+theorem arcovarMarpleRec_domain (x : List S) (p : ℕ) (r : List S × S)
+    (h : arcovarMarpleRec x p = some r) : p ≤ x.length ∧ 0 < x.length := by
+  unfold arcovarMarpleRec arcovarMarpleCore at h
+  simp only at h
+  by_cases h1 : x.length < p
+  · simp [h1] at h
+  · by_cases h2 : x.length = 0
+    · by_cases hp : 0 < p <;> simp [h2, hp] at h
+    · omega
+
+/-- `order == 0`: no recursion, the signal power `Σ|x|²/N` is returned with no coefficient -/
+theorem arcovarMarpleRec_order_zero (x : List S) (hx : 0 < x.length) :
+    arcovarMarpleRec x 0
+      = some ([], sumR x.length (fun k => abs2 (nth x k)) / ((x.length : ℕ) : S)) := by
+  have h2 : x.length ≠ 0 := by omega
+  simp [arcovarMarpleRec, arcovarMarpleCore, h2]
+
+variable [ReOrd S]
+
+/-- whenever the transliterated `modcovar_marple` returns, it returns exactly `p` coefficients -/
+theorem modcovarMarpleRec_length (x : List S) (p : ℕ) (a : List S) (e : S)
+    (h : modcovarMarpleRec x p = some (a, e)) : a.length = p := by
+  unfold modcovarMarpleRec at h
+  split at h
+  · rename_i r hr
+    simp only [Option.some.injEq] at h
+    subst h
+    exact MarpleL.modcovarMarpleCore_length hr
+  · exact absurd h (by simp)
+
+/-- entry guards of the transliterated `modcovar_marple`: non-empty record, `p ≤ N` -/
+theorem modcovarMarpleRec_domain (x : List S) (p : ℕ) (r : List S × S)
+    (h : modcovarMarpleRec x p = some r) : p ≤ x.length ∧ 0 < x.length := by
+  unfold modcovarMarpleRec modcovarMarpleCore at h
+  simp only at h
+  by_cases h1 : x.length = 0
+  · simp [h1] at h
+  · by_cases h2 : x.length < p
+    · simp [h1, h2] at h
+    · omega
+
+/-- `IP == 0`: `(.5*R1 + R2 + R3)/N` with `R1 = Σ_{0<k<N-1} 2|x_k|²`, `R2 = |x_0|²`, `R3 = |x_{N-1}|²` -/
+theorem modcovarMarpleRec_order_zero (x : List S) (hx : 0 < x.length) :
+    modcovarMarpleRec x 0
+      = some ([], (half2 * sumR (x.length - 2) (fun j => two2 * abs2 (nth x (j + 1)))
+                    + abs2 (nth x 0) + abs2 (nth x (x.length - 1))) / ((x.length : ℕ) : S)) := by
+  have h2 : x.length ≠ 0 := by omega
+  simp [modcovarMarpleRec, modcovarMarpleCore, h2]
+
+end MarpleRec
+
+/-- order 0, every field with involution: the transliterated `arcovar_marple` and the least-squares
+specification agree (`Σ|x|²/N`, no coefficient) — the only case of "recursion = least squares" that is
+proved for all inputs -/
+theorem arcovarMarpleRec_order_zero_eq_spec {K : Type} [Field K] [StarRing K] [IsZero K]
+    (x : List K) (hx : 0 < x.length) :
+    arcovarMarpleRec x 0 = arcovarMarple x 0 := by
+  rw [arcovarMarpleRec_order_zero x hx]
+  simp only [arcovarMarple, arcovar, lsFit, lstsq, solveVec, solveMat, Nat.sub_zero]
+  simp only [vec, List.range_zero, List.map_nil, List.foldl_nil, Option.map_some, sumR, add_zero]
+  congr 2
+  rw [sumR_eq_sum, sumR_eq_sum]
+  congr 1
+  apply Finset.sum_congr rfl
+  intro i hi
+  have hi' : i < x.length := Finset.mem_range.mp hi
+  simp [abs2, corrmtx, mentryM, nth, vec, hi', mul_comm]
+
+/-- hypotheses of `arcovarMarpleRec_order_zero_eq_spec` are satisfiable and the common value is the
+mean power: `x = (1, 2i)` over the Gaussian rationals gives `5/2` -/
+example : arcovarMarpleRec ([⟨1, 0⟩, ⟨0, 2⟩] : List CRat) 0 = some ([], ⟨5 / 2, 0⟩) ∧
+    arcovarMarple ([⟨1, 0⟩, ⟨0, 2⟩] : List CRat) 0 = some ([], ⟨5 / 2, 0⟩) := by
+  decide +kernel
+
+/-- a quirk of `modcovar_marple` that the transliteration reproduces: for a ONE-sample record and
+`IP = 0` the code adds `|X[0]|²` and `|X[N-1]|²`, which are the same sample, and returns `2|x₀|²`
+where the least-squares specification (and `arcovar_marple`) give `|x₀|²`.  For `N ≥ 2` the two agree
+(second conjunct: `N = 2`). -/
+example : modcovarMarpleRec ([⟨3, 0⟩] : List CRat) 0 = some ([], ⟨18, 0⟩) ∧
+    modcovarMarple ([⟨3, 0⟩] : List CRat) 0 = some ([], ⟨9, 0⟩) ∧
+    modcovarMarpleRec ([⟨3, 0⟩, ⟨1, 0⟩] : List CRat) 0 = modcovarMarple ([⟨3, 0⟩, ⟨1, 0⟩] : List CRat) 0 := by
+  decide +kernel
+
+/-! Concrete exact instances of "recursion = least squares", checked by the kernel over the Gaussian
+rationals `CRat` (real record: zero imaginary parts; complex record).  They are instances, not the
+general theorem (see the box above). -/
+
+/-- real record `x = (1,2,3,5,4,-1)`, `p = 2`: the covariance recursion returns the least-squares
+solution `a = (-583/257, 511/257)` and the minimum per sample `439/257` -/
+example :
+    arcovarMarpleRec ([⟨1, 0⟩, ⟨2, 0⟩, ⟨3, 0⟩, ⟨5, 0⟩, ⟨4, 0⟩, ⟨-1, 0⟩] : List CRat) 2
+      = arcovarMarple ([⟨1, 0⟩, ⟨2, 0⟩, ⟨3, 0⟩, ⟨5, 0⟩, ⟨4, 0⟩, ⟨-1, 0⟩] : List CRat) 2 ∧
+    arcovarMarple ([⟨1, 0⟩, ⟨2, 0⟩, ⟨3, 0⟩, ⟨5, 0⟩, ⟨4, 0⟩, ⟨-1, 0⟩] : List CRat) 2
+      = some ([⟨-583 / 257, 0⟩, ⟨511 / 257, 0⟩], ⟨439 / 257, 0⟩) := by
+  decide +kernel
+
+/-- the same record through the modified covariance recursion: `a = (-100/83, 52/83)`, `775/332` -/
+example :
+    modcovarMarpleRec ([⟨1, 0⟩, ⟨2, 0⟩, ⟨3, 0⟩, ⟨5, 0⟩, ⟨4, 0⟩, ⟨-1, 0⟩] : List CRat) 2
+      = modcovarMarple ([⟨1, 0⟩, ⟨2, 0⟩, ⟨3, 0⟩, ⟨5, 0⟩, ⟨4, 0⟩, ⟨-1, 0⟩] : List CRat) 2 ∧
+    modcovarMarple ([⟨1, 0⟩, ⟨2, 0⟩, ⟨3, 0⟩, ⟨5, 0⟩, ⟨4, 0⟩, ⟨-1, 0⟩] : List CRat) 2
+      = some ([⟨-100 / 83, 0⟩, ⟨52 / 83, 0⟩], ⟨775 / 332, 0⟩) := by
+  decide +kernel
+
+/-- complex record `x = (1+i, 2-i, -1+2i, 3, 1-2i, i)`, `p = 2`, covariance recursion:
+`a = ((4+55i)/117, (-42-40i)/117)`, minimum per sample `358/117` -/
+example :
+    arcovarMarpleRec ([⟨1, 1⟩, ⟨2, -1⟩, ⟨-1, 2⟩, ⟨3, 0⟩, ⟨1, -2⟩, ⟨0, 1⟩] : List CRat) 2
+      = arcovarMarple ([⟨1, 1⟩, ⟨2, -1⟩, ⟨-1, 2⟩, ⟨3, 0⟩, ⟨1, -2⟩, ⟨0, 1⟩] : List CRat) 2 ∧
+    arcovarMarple ([⟨1, 1⟩, ⟨2, -1⟩, ⟨-1, 2⟩, ⟨3, 0⟩, ⟨1, -2⟩, ⟨0, 1⟩] : List CRat) 2
+      = some ([⟨4 / 117, 55 / 117⟩, ⟨-14 / 39, -40 / 117⟩], ⟨358 / 117, 0⟩) := by
+  decide +kernel
+
+/-- the same complex record through the modified covariance recursion -/
+example :
+    modcovarMarpleRec ([⟨1, 1⟩, ⟨2, -1⟩, ⟨-1, 2⟩, ⟨3, 0⟩, ⟨1, -2⟩, ⟨0, 1⟩] : List CRat) 2
+      = modcovarMarple ([⟨1, 1⟩, ⟨2, -1⟩, ⟨-1, 2⟩, ⟨3, 0⟩, ⟨1, -2⟩, ⟨0, 1⟩] : List CRat) 2 ∧
+    modcovarMarple ([⟨1, 1⟩, ⟨2, -1⟩, ⟨-1, 2⟩, ⟨3, 0⟩, ⟨1, -2⟩, ⟨0, 1⟩] : List CRat) 2
+      = some ([⟨-27 / 1487, 738 / 1487⟩, ⟨-511 / 1487, -504 / 1487⟩], ⟨17667 / 5948, 0⟩) := by
+  decide +kernel
+
+/-- an exit: the constant record is fitted exactly at order 1, the order-2 normal equations are
+singular, and the recursion stops at the reciprocal of the zero order-1 error energy -/
+example :
+    arcovarMarpleRec ([⟨1, 0⟩, ⟨1, 0⟩, ⟨1, 0⟩, ⟨1, 0⟩, ⟨1, 0⟩] : List CRat) 2 = none ∧
+    arcovarMarple ([⟨1, 0⟩, ⟨1, 0⟩, ⟨1, 0⟩, ⟨1, 0⟩, ⟨1, 0⟩] : List CRat) 2 = none ∧
+    arcovarMarpleRec ([⟨1, 0⟩, ⟨1, 0⟩, ⟨1, 0⟩, ⟨1, 0⟩, ⟨1, 0⟩] : List CRat) 1
+      = some ([⟨-1, 0⟩], ⟨0, 0⟩) := by
+  decide +kernel
+
+/-- the dead reciprocal of the last order update (see `covOrderUpdate`): `x[2..]` of
+`(5,1,2,4,8,16)` obeys `x_t = 2 x_{t-1}` exactly, so `pf = 0` on entry of the last order update, yet
+the order-2 problem has full rank and the recursion returns its solution `a = (-2, 0)`, error `0` -/
+example :
+    arcovarMarpleRec ([⟨5, 0⟩, ⟨1, 0⟩, ⟨2, 0⟩, ⟨4, 0⟩, ⟨8, 0⟩, ⟨16, 0⟩] : List CRat) 2
+      = some ([⟨-2, 0⟩, ⟨0, 0⟩], ⟨0, 0⟩) ∧
+    arcovarMarple ([⟨5, 0⟩, ⟨1, 0⟩, ⟨2, 0⟩, ⟨4, 0⟩, ⟨8, 0⟩, ⟨16, 0⟩] : List CRat) 2
+      = some ([⟨-2, 0⟩, ⟨0, 0⟩], ⟨0, 0⟩) := by
+  decide +kernel
 
 end SpecVerif.C14
